@@ -1,13 +1,76 @@
 package main
 
 import (
+	"strings"
+
 	"github.com/enfein/mieru/v3/apis/constant"
+	"github.com/enfein/mieru/v3/pkg/appctl"
+	"github.com/enfein/mieru/v3/pkg/appctl/appctlcommon"
 	pb "github.com/enfein/mieru/v3/pkg/appctl/appctlpb"
+	"google.golang.org/protobuf/proto"
 )
+
+// Bounds that are literals in the Go source (no named constant to export) are recovered from the
+// behaviour of the validators: the largest / smallest accepted value in a probed interval.
+func c20Largest(lo, hi int64, ok func(int64) bool) int64 {
+	best := lo - 1
+	for v := lo; v <= hi; v++ {
+		if ok(v) {
+			best = v
+		}
+	}
+	return best
+}
+
+func c20Smallest(lo, hi int64, ok func(int64) bool) int64 {
+	for v := lo; v <= hi; v++ {
+		if ok(v) {
+			return v
+		}
+	}
+	return hi + 1
+}
 
 func init() {
 	z("C20_MaxUserNameLen", int64(constant.MaxUserNameLen))
 	z("C20_TransportUnknown", int64(pb.TransportProtocol_UNKNOWN_TRANSPORT_PROTOCOL))
 	z("C20_TransportUDP", int64(pb.TransportProtocol_UDP))
 	z("C20_TransportTCP", int64(pb.TransportProtocol_TCP))
+	z("C20_Socks5ProxyProtocol", int64(pb.ProxyProtocol_SOCKS5_PROXY_PROTOCOL))
+	z("C20_UnknownProxyProtocol", int64(pb.ProxyProtocol_UNKNOWN_PROXY_PROTOCOL))
+	z("C20_EgressActionProxy", int64(pb.EgressAction_PROXY))
+	z("C20_MaxQuotaDays", int64(appctlcommon.VerifMaxQuotaDays))
+	userOK := func(u *pb.User) bool { return appctlcommon.ValidateServerConfigSingleUser(u) == nil }
+	z("C20_MaxPasswordLen", c20Largest(1, 300, func(n int64) bool {
+		return userOK(&pb.User{Name: proto.String("u"), Password: proto.String(strings.Repeat("p", int(n)))})
+	}))
+	mtuOK := func(v int64) bool {
+		return appctl.ValidateServerConfigPatch(&pb.ServerConfig{Mtu: proto.Int32(int32(v))}) == nil
+	}
+	z("C20_MtuMin", c20Smallest(1, 3000, mtuOK))
+	z("C20_MtuMax", c20Largest(1, 3000, mtuOK))
+	portOK := func(v int64) bool {
+		_, err := appctlcommon.FlatPortBindings([]*pb.PortBinding{{Port: proto.Int32(int32(v)), Protocol: pb.TransportProtocol_TCP.Enum()}})
+		return err == nil
+	}
+	z("C20_PortMin", c20Smallest(-5, 70000, func(v int64) bool { return v != 0 && portOK(v) }))
+	z("C20_PortMax", c20Largest(1, 70000, portOK))
+	z("C20_MinMetricsIntervalNs", c20Smallest(1, 3000, func(ms int64) bool {
+		d := (timeMs(ms))
+		return appctl.ValidateServerConfigPatch(&pb.ServerConfig{AdvancedSettings: &pb.ServerAdvancedSettings{MetricsLoggingInterval: proto.String(d)}}) == nil
+	})*1000000)
+}
+
+func timeMs(ms int64) string { return itoa(ms) + "ms" }
+
+func itoa(v int64) string {
+	if v == 0 {
+		return "0"
+	}
+	s := ""
+	for v > 0 {
+		s = string(rune('0'+v%10)) + s
+		v /= 10
+	}
+	return s
 }
